@@ -23,6 +23,9 @@ func init() {
 		"log.Printf":                 nativeNop,
 		"log.Println":                nativeNop,
 		"log.Print":                  nativeNop,
+		"log.(*Logger).Printf":       nativeNop,
+		"log.(*Logger).Println":      nativeNop,
+		"log.(*Logger).Print":        nativeNop,
 		"math/bits.OnesCount8":       nativeOnesCount8,
 		"math/bits.TrailingZeros8":   nativeTrailingZeros8,
 		"sync.(*Mutex).Lock":         nativeLock(true),
@@ -72,6 +75,7 @@ func nativeNewError(x *exec, s *State, fn *ssa.Function, args []Value, pos token
 	e := x.e
 	r := e.newRef(s, "err")
 	s.alloc = e.C.Add(s.alloc, e.C.IntC(64))
+	x.noteAlloc(s, pos, "error")
 	return IfaceV{Tag: e.errorTag(), Box: r}
 }
 
